@@ -167,27 +167,93 @@ Qed.
 Lemma start_fixed_inv nvalues files : winv (start (compile all_fixed nvalues files)).
 Proof. unfold compile. cbn [fx_defer_first all_fixed app]. apply start_defer_inv. Qed.
 
-Lemma released_after_close started_w saw opened r :
-  winv started_w ->
-  released (mkc true (close_reader started_w) false 0 saw opened opened r) = true.
-Proof.
-  intros H. destruct (close_reader_done _ H) as [_ [Hd Hc]].
-  unfold released. cbn. rewrite Hd, Hc. cbn. now rewrite Nat.eqb_refl.
-Qed.
-
 Lemma close_reader_idem st : winv st -> close_reader (close_reader st) = close_reader st.
 Proof.
   intros H. destruct (close_reader_done _ H) as [_ [Hd _]].
   unfold close_reader at 1. unfold resume. now rewrite Hd.
 Qed.
 
-(* leak-freedom over every fault placement: whatever the scenario, when the call has returned the pipe's
-   read end is closed, the goroutine has returned, every file was closed exactly once, and a response
-   body that was obtained is closed *)
-Lemma release_all_fixed nvalues files sc :
-  released (call all_fixed (compile all_fixed nvalues files) sc) = true.
+(* a reader that is handed the upload error finds the goroutine returned *)
+Lemma pull_err_done st r st' : pull st = (r, st') -> r = PErr -> w_done st' = true.
 Proof.
-  unfold call. destruct (sc_param_err sc); [reflexivity|].
+  unfold pull. destruct (w_done st) eqn:E.
+  - intros H _. inversion H; subst. exact E.
+  - destruct (w_ops st) as [|[h|ok h| |] ops]; intros H Hr; inversion H; subst; discriminate.
+Qed.
+
+Lemma pull_all_err_done fuel : forall st, fst (pull_all fuel st) = PErr -> w_done (snd (pull_all fuel st)) = true.
+Proof.
+  induction fuel as [|f IH]; intros st; [cbn; discriminate|].
+  cbn [pull_all]. destruct (pull st) as [r st'] eqn:E. destruct r.
+  - apply IH.
+  - cbn. discriminate.
+  - cbn. intros _. now apply (pull_err_done _ _ _ E).
+Qed.
+
+(* the state of a returned call that holds nothing of the upload: goroutine started and returned, the
+   files closed exactly once by its deferred function, none by the builder *)
+Definition good (c : cst) : Prop :=
+  c_started c = true /\ winv (c_w c) /\ w_done (c_w c) = true /\ c_builder_closes c = 0.
+
+Lemma good_upload c : good c -> upload_released c = true.
+Proof.
+  intros [Hs [[_ Hc] [Hd Hb]]]. unfold upload_released. rewrite Hs, Hd, Hb, Hc, Hd. reflexivity.
+Qed.
+
+Lemma good_closed w ro saw o cl r : winv w -> good (mkc true (close_reader w) ro 0 saw o cl r).
+Proof.
+  intros H. destruct (close_reader_done _ H) as [Hi [Hd _]]. unfold good. cbn. repeat split; try apply Hi; assumption.
+Qed.
+
+Lemma good_done w ro saw o cl r : winv w -> w_done w = true -> good (mkc true w ro 0 saw o cl r).
+Proof. intros H Hd. unfold good. cbn. repeat split; try apply H; assumption. Qed.
+
+Lemma fail_late_good w ro saw :
+  winv w -> (ro = false -> w_done w = true) -> good (fail_late all_fixed true w ro saw).
+Proof.
+  intros H Hro. unfold fail_late. cbn [fx_close_on_late_error all_fixed]. destruct ro.
+  - now apply good_closed.
+  - apply good_done; auto.
+Qed.
+
+Lemma read_to_end_inv w : winv w -> winv (snd (read_to_end w)).
+Proof. intros H. unfold read_to_end. now apply pull_all_inv. Qed.
+
+Lemma transport_reads_inv reads w : winv w -> winv (snd (transport_reads reads w)).
+Proof.
+  intros H. unfold transport_reads. destruct reads; [now apply pull_n_inv | now apply read_to_end_inv].
+Qed.
+
+Lemma submit_good fx sc w ro :
+  winv w -> (ro = false -> w_done w = true) -> good (submit fx sc w ro).
+Proof.
+  intros H Hro. unfold submit. cbv zeta. destruct (sc_debug sc && ro) eqn:Edump.
+  - (* the request is dumped: its body is read to the end *)
+    destruct (read_to_end w) as [r0 wd] eqn:E.
+    assert (Hd : winv wd) by (change wd with (snd (r0, wd)); rewrite <- E; now apply read_to_end_inv).
+    assert (Hdone : r0 = PErr -> w_done wd = true).
+    { intros Hr. change wd with (snd (r0, wd)). rewrite <- E. unfold read_to_end. apply pull_all_err_done.
+      fold (read_to_end w). rewrite E. exact Hr. }
+    rewrite orb_true_r.
+    destruct r0.
+    + destruct (sc_transport sc); unfold respond; now apply good_closed.
+    + destruct (sc_transport sc); unfold respond; now apply good_closed.
+    + apply good_done; [exact Hd | now apply Hdone].
+  - rewrite orb_false_r. destruct ro; cbn [negb].
+    + destruct (sc_transport sc) as [k|reads r].
+      * destruct (pull_n k w) as [r2 w2] eqn:E2.
+        assert (H2 : winv w2) by (change w2 with (snd (r2, w2)); rewrite <- E2; now apply pull_n_inv).
+        now apply good_closed.
+      * destruct (transport_reads reads w) as [r2 w2] eqn:E2.
+        assert (H2 : winv w2) by (change w2 with (snd (r2, w2)); rewrite <- E2; now apply transport_reads_inv).
+        destruct r2; unfold respond; now apply good_closed.
+    + destruct (sc_transport sc); unfold respond; apply good_done; auto.
+Qed.
+
+Lemma call_good nvalues files sc :
+  sc_param_err sc = false -> good (call all_fixed (compile all_fixed nvalues files) sc).
+Proof.
+  intros Hp. unfold call. rewrite Hp.
   set (w0 := start (compile all_fixed nvalues files)).
   assert (H0 : winv w0) by apply start_fixed_inv.
   clearbody w0.
@@ -195,101 +261,189 @@ Proof.
   destruct asks eqn:Easks.
   - (* the auth writer asked for the body *)
     destruct (read_to_end w0) as [r1 w1] eqn:E1.
-    assert (H1 : winv w1).
-    { change w1 with (snd (r1, w1)). rewrite <- E1. unfold read_to_end. now apply pull_all_inv. }
+    assert (H1 : winv w1) by (change w1 with (snd (r1, w1)); rewrite <- E1; now apply read_to_end_inv).
+    destruct (close_reader_done _ H1) as [Hi [Hd _]].
     destruct r1; cbn [andb negb].
-    + (* the copy succeeded: the reader was closed by getBody *)
-      assert (Hrel : forall saw o r, released (mkc true (close_reader w1) false 0 saw o o r) = true)
-        by (intros; now apply released_after_close).
-      destruct (sc_auth sc) eqn:Ea; try (unfold fail_late; cbn; apply Hrel).
-      * destruct (sc_late_err sc); [unfold fail_late; cbn; apply Hrel|].
-        cbn. destruct (sc_transport sc); [apply Hrel | unfold respond; apply Hrel].
-      * destruct (sc_late_err sc); [unfold fail_late; cbn; apply Hrel|].
-        cbn. destruct (sc_transport sc); [apply Hrel | unfold respond; apply Hrel].
-    + assert (Hrel : forall saw o r, released (mkc true (close_reader w1) false 0 saw o o r) = true)
-        by (intros; now apply released_after_close).
-      destruct (sc_auth sc) eqn:Ea; try (unfold fail_late; cbn; apply Hrel).
-      * destruct (sc_late_err sc); [unfold fail_late; cbn; apply Hrel|].
-        cbn. destruct (sc_transport sc); [apply Hrel | unfold respond; apply Hrel].
-      * destruct (sc_late_err sc); [unfold fail_late; cbn; apply Hrel|].
-        cbn. destruct (sc_transport sc); [apply Hrel | unfold respond; apply Hrel].
-    + (* the copy failed on the upload error *)
-      unfold fail_late. cbn. now apply released_after_close.
+    + destruct (sc_auth sc); try (apply fail_late_good; auto).
+      * destruct (sc_late_err sc); [apply fail_late_good; auto | apply submit_good; auto].
+      * destruct (sc_late_err sc); [apply fail_late_good; auto | apply submit_good; auto].
+    + destruct (sc_auth sc); try (apply fail_late_good; auto).
+      * destruct (sc_late_err sc); [apply fail_late_good; auto | apply submit_good; auto].
+      * destruct (sc_late_err sc); [apply fail_late_good; auto | apply submit_good; auto].
+    + apply fail_late_good; [exact H1 | discriminate].
   - cbn [andb negb].
-    destruct (sc_auth sc) eqn:Ea.
-    + destruct (sc_late_err sc); [unfold fail_late; cbn; now apply released_after_close|].
-      cbn. destruct (sc_transport sc) as [k|reads r].
-      * destruct (pull_n k w0) as [r2 w2] eqn:E2.
-        assert (H2 : winv w2) by (change w2 with (snd (r2, w2)); rewrite <- E2; now apply pull_n_inv).
-        now apply released_after_close.
-      * destruct (transport_reads reads w0) as [r2 w2] eqn:E2.
-        assert (H2 : winv w2).
-        { change w2 with (snd (r2, w2)). rewrite <- E2. unfold transport_reads.
-          destruct reads; [now apply pull_n_inv | unfold read_to_end; now apply pull_all_inv]. }
-        destruct r2; unfold respond; now apply released_after_close.
-    + destruct (sc_late_err sc); [unfold fail_late; cbn; now apply released_after_close|].
-      cbn. destruct (sc_transport sc) as [k|reads r].
-      * destruct (pull_n k w0) as [r2 w2] eqn:E2.
-        assert (H2 : winv w2) by (change w2 with (snd (r2, w2)); rewrite <- E2; now apply pull_n_inv).
-        now apply released_after_close.
-      * destruct (transport_reads reads w0) as [r2 w2] eqn:E2.
-        assert (H2 : winv w2).
-        { change w2 with (snd (r2, w2)). rewrite <- E2. unfold transport_reads.
-          destruct reads; [now apply pull_n_inv | unfold read_to_end; now apply pull_all_inv]. }
-        destruct r2; unfold respond; now apply released_after_close.
-    + unfold fail_late. cbn. now apply released_after_close.
+    destruct (sc_auth sc).
+    + destruct (sc_late_err sc); [apply fail_late_good | apply submit_good]; auto; discriminate.
+    + destruct (sc_late_err sc); [apply fail_late_good | apply submit_good]; auto; discriminate.
+    + apply fail_late_good; auto; discriminate.
 Qed.
 
-(* each of the three repairs is necessary: without it some fault placement leaks *)
+(* how often the response body is closed: never when none was obtained, else as resp_closes_of says *)
+Definition resp_counts (fx : fixes) (sc : scenario) (c : cst) : Prop :=
+  (c_resp_opened c = 0 /\ c_resp_closes c = 0) \/
+  (exists reads r, sc_transport sc = TRespond reads r /\ c_resp_opened c = 1 /\
+                   c_resp_closes c = resp_closes_of fx (sc_debug sc) r).
+
+Lemma fail_late_counts fx sc st w ro saw : resp_counts fx sc (fail_late fx st w ro saw).
+Proof. unfold fail_late. destruct (fx_close_on_late_error fx); left; split; reflexivity. Qed.
+
+Lemma submit_counts fx sc w ro : resp_counts fx sc (submit fx sc w ro).
+Proof.
+  unfold submit. cbv zeta. destruct (sc_debug sc && ro).
+  - destruct (read_to_end w) as [r0 wd]. rewrite orb_true_r.
+    destruct r0; try (left; split; reflexivity);
+      (destruct (sc_transport sc) as [k|reads r] eqn:Et; [left; split; reflexivity|]);
+      right; exists reads, r; (split; [exact Et | split; reflexivity]).
+  - rewrite orb_false_r. destruct ro; cbn [negb].
+    + destruct (sc_transport sc) as [k|reads r] eqn:Et.
+      * destruct (pull_n k w). left; split; reflexivity.
+      * destruct (transport_reads reads w) as [r2 w2].
+        destruct r2; try (left; split; reflexivity); right; exists reads, r; (split; [exact Et | split; reflexivity]).
+    + destruct (sc_transport sc) as [k|reads r] eqn:Et; [left; split; reflexivity|].
+      right; exists reads, r; (split; [exact Et | split; reflexivity]).
+Qed.
+
+Lemma call_counts fx prog sc : resp_counts fx sc (call fx prog sc).
+Proof.
+  unfold call. destruct (sc_param_err sc); [left; split; reflexivity|].
+  destruct (match sc_auth sc with AOk a | AFail a => a | ANone => false end).
+  - destruct (read_to_end (start prog)) as [r1 w1]. destruct r1; cbn [andb negb];
+      try apply fail_late_counts;
+      (destruct (sc_auth sc); try apply fail_late_counts;
+       (destruct (sc_late_err sc); [apply fail_late_counts | apply submit_counts])).
+  - cbn [andb negb]. destruct (sc_auth sc); try apply fail_late_counts;
+      (destruct (sc_late_err sc); [apply fail_late_counts | apply submit_counts]).
+Qed.
+
+(* with every repair in place the body handed out by the transport is closed exactly once, whatever the
+   response and whether or not it is dumped *)
+Lemma resp_closes_of_fixed debug r : resp_closes_of all_fixed debug r = 1.
+Proof.
+  unfold resp_closes_of. cbn [fx_resp_close_first fx_resp_close_held all_fixed].
+  destruct (debug && printable (rb_ctype r)); destruct (faulty (rb_fault r)); reflexivity.
+Qed.
+
+(* leak-freedom over every fault placement: whatever the scenario, when the call has returned the writer
+   goroutine has returned, every file was closed exactly once, and a response body that was obtained is closed *)
+Lemma release_all_fixed nvalues files sc :
+  released (call all_fixed (compile all_fixed nvalues files) sc) = true.
+Proof.
+  unfold released. apply andb_true_iff. split.
+  - destruct (sc_param_err sc) eqn:Hp.
+    + unfold call. rewrite Hp. reflexivity.
+    + apply good_upload. now apply call_good.
+  - unfold resp_closed.
+    destruct (call_counts all_fixed (compile all_fixed nvalues files) sc) as [[Ho Hc]|[reads [r [_ [Ho Hc]]]]];
+      rewrite Ho, Hc; [reflexivity|].
+    rewrite resp_closes_of_fixed. reflexivity.
+Qed.
+
+(* ... and closed exactly once, on every path: Debug on or off, the dump of the response failing or going through *)
+Lemma release_once_all_fixed nvalues files sc :
+  released_once (call all_fixed (compile all_fixed nvalues files) sc) = true.
+Proof.
+  assert (Hr := release_all_fixed nvalues files sc).
+  unfold released in Hr. apply andb_true_iff in Hr as [Hu _].
+  unfold released_once. rewrite Hu. cbn [andb]. unfold resp_closed_once.
+  destruct (call_counts all_fixed (compile all_fixed nvalues files) sc) as [[Ho Hc]|[reads [r [_ [Ho Hc]]]]];
+    rewrite Ho, Hc; [reflexivity|].
+  rewrite resp_closes_of_fixed. reflexivity.
+Qed.
+
+(* the repair of F-C12-5 is necessary: with the deferred Close bound to the body the response held when the defer
+   statement was executed, Debug on and a printable response read without fault, the body the transport handed
+   out is closed by the dump and once more by the deferred Close (the call still succeeds and nothing leaks) *)
+Lemma release_once_needs_resp_close_held :
+  let fx := mkfx true true true true false in
+  let sc := mksc false ANone false (TRespond None RespRead) true in
+  let c := call fx (compile fx 0 [mkfp true true [true]]) sc in
+  dump_closes_twice sc = true /\
+  c_result c = ROk /\ c_resp_opened c = 1 /\ c_resp_closes c = 2 /\ released c = true /\ released_once c = false.
+Proof. vm_compute. repeat split. Qed.
+
+(* ... and the same input under the repaired code: closed once *)
+Lemma resp_close_held_closes_once :
+  let c := call all_fixed (compile all_fixed 0 [mkfp true true [true]])
+                (mksc false ANone false (TRespond None RespRead) true) in
+  c_result c = ROk /\ c_resp_opened c = 1 /\ c_resp_closes c = 1 /\ released_once c = true.
+Proof. vm_compute. repeat split. Qed.
+
+(* off that path the code before the repair closed the body exactly once too: the repair changes nothing else *)
+Lemma resp_closes_of_without_close_held debug r :
+  debug && (printable (rb_ctype r) && negb (faulty (rb_fault r))) = false ->
+  resp_closes_of (mkfx true true true true false) debug r = 1.
+Proof.
+  unfold resp_closes_of. cbn [fx_resp_close_first fx_resp_close_held].
+  destruct debug; destruct (printable (rb_ctype r)); destruct (faulty (rb_fault r)); cbn; intros H; try reflexivity; discriminate.
+Qed.
+
+(* the order in Submit matters: were the Close deferred only after the Debug dump, a response body failing
+   under the dump would never be closed (however the deferred function picks the body) *)
+Lemma release_needs_resp_close_first :
+  let fx := mkfx true true true false true in
+  let c := call fx (compile fx 0 [mkfp true true [true]])
+                (mksc false ANone false (TRespond None (mkrb CtConsumed false RFLate)) true) in
+  c_result c = RFail /\ c_resp_opened c = 1 /\ c_resp_closes c = 0 /\ released c = false.
+Proof. vm_compute. repeat split. Qed.
+
+(* each of the three repairs of the upload side is necessary: without it some fault placement leaks *)
 Definition one_file : list fileprog := [mkfp false true [true; true]].
 
 (* F-C12-1: the auth writer fails without asking for the body; no late-error close: the goroutine waits
    for ever at its first write and the file stays open *)
 Lemma release_needs_late_close :
-  let fx := mkfx true false true in
-  let c := call fx (compile fx 0 one_file) (mksc false (AFail false) false (TFail 0)) in
+  let fx := mkfx true false true true true in
+  let c := call fx (compile fx 0 one_file) (mksc false (AFail false) false (TFail 0) false) in
   released c = false /\ w_done (c_w c) = false /\ w_file_closes (c_w c) = 0.
 Proof. vm_compute. repeat split. Qed.
 
 (* F-C12-2: one form field and one file, the transport fails before reading: the write of the field fails,
    the goroutine returns before the deferred function was registered: the file stays open *)
 Lemma release_needs_defer_first :
-  let fx := mkfx false true true in
-  let c := call fx (compile fx 1 one_file) (mksc false ANone false (TFail 0)) in
+  let fx := mkfx false true true true true in
+  let c := call fx (compile fx 1 one_file) (mksc false ANone false (TFail 0) false) in
   released c = false /\ w_done (c_w c) = true /\ w_file_closes (c_w c) = 0.
 Proof. vm_compute. repeat split. Qed.
 
 (* ... while without the form field the same scenario releases the file, as observed on the code *)
 Lemma defer_late_without_fields_ok :
-  let fx := mkfx false true true in
-  released (call fx (compile fx 0 one_file) (mksc false ANone false (TFail 0))) = true.
+  let fx := mkfx false true true true true in
+  released (call fx (compile fx 0 one_file) (mksc false ANone false (TFail 0) false)) = true.
 Proof. vm_compute. reflexivity. Qed.
 
 (* F-C12-4: the parameter writer fails after handing files over *)
 Lemma release_needs_param_close :
-  let fx := mkfx true true false in
-  released (call fx (compile fx 0 one_file) (mksc true ANone false (TFail 0))) = false.
+  let fx := mkfx true true false true true in
+  released (call fx (compile fx 0 one_file) (mksc true ANone false (TFail 0) false)) = false.
 Proof. vm_compute. reflexivity. Qed.
 
 (* a call that reports success was never given an upload error, under any fixes and any program *)
+Lemma submit_success_saw_no_upload_error fx sc w ro :
+  c_result (submit fx sc w ro) = ROk -> c_saw_upload_error (submit fx sc w ro) = false.
+Proof.
+  unfold submit. cbv zeta. destruct (sc_debug sc && ro).
+  - destruct (read_to_end w) as [r0 wd]. rewrite orb_true_r.
+    destruct r0; try discriminate; (destruct (sc_transport sc); [discriminate | reflexivity]).
+  - rewrite orb_false_r. destruct ro; cbn [negb].
+    + destruct (sc_transport sc) as [k|reads r]; [destruct (pull_n k w); discriminate|].
+      destruct (transport_reads reads w) as [r2 w2]. destruct r2; try discriminate; reflexivity.
+    + destruct (sc_transport sc); [discriminate | reflexivity].
+Qed.
+
+Lemma fail_late_not_ok fx st w ro saw : c_result (fail_late fx st w ro saw) = ROk -> False.
+Proof. unfold fail_late. destruct (fx_close_on_late_error fx); discriminate. Qed.
+
 Lemma success_saw_no_upload_error fx prog sc :
   c_result (call fx prog sc) = ROk -> c_saw_upload_error (call fx prog sc) = false.
 Proof.
   unfold call. destruct (sc_param_err sc); [discriminate|].
   destruct (match sc_auth sc with AOk a | AFail a => a | ANone => false end).
-  - destruct (read_to_end (start prog)) as [r1 w1]. destruct r1; cbn [andb negb].
-    + destruct (sc_auth sc); unfold fail_late; try (destruct (fx_close_on_late_error fx); discriminate);
-        (destruct (sc_late_err sc); [destruct (fx_close_on_late_error fx); discriminate|]);
-        cbn; destruct (sc_transport sc); try discriminate; unfold respond; reflexivity.
-    + destruct (sc_auth sc); unfold fail_late; try (destruct (fx_close_on_late_error fx); discriminate);
-        (destruct (sc_late_err sc); [destruct (fx_close_on_late_error fx); discriminate|]);
-        cbn; destruct (sc_transport sc); try discriminate; unfold respond; reflexivity.
-    + unfold fail_late. destruct (fx_close_on_late_error fx); discriminate.
-  - cbn [andb negb]. destruct (sc_auth sc); unfold fail_late; try (destruct (fx_close_on_late_error fx); discriminate);
-      (destruct (sc_late_err sc); [destruct (fx_close_on_late_error fx); discriminate|]);
-      cbn; (destruct (sc_transport sc) as [k|reads r];
-            [destruct (pull_n k (start prog)); discriminate|]);
-      destruct (transport_reads reads (start prog)) as [r2 w2]; destruct r2; try discriminate; unfold respond; reflexivity.
+  - destruct (read_to_end (start prog)) as [r1 w1]. destruct r1; cbn [andb negb];
+      try (intros H; now apply fail_late_not_ok in H);
+      (destruct (sc_auth sc); try (intros H; now apply fail_late_not_ok in H);
+       (destruct (sc_late_err sc); [intros H; now apply fail_late_not_ok in H | apply submit_success_saw_no_upload_error])).
+  - cbn [andb negb]. destruct (sc_auth sc); try (intros H; now apply fail_late_not_ok in H);
+      (destruct (sc_late_err sc); [intros H; now apply fail_late_not_ok in H | apply submit_success_saw_no_upload_error]).
 Qed.
 
 (* a source that fails while the body is read to its end makes the reader of the pipe see an error:
@@ -337,13 +491,51 @@ Proof.
       * intros _. lia.
 Qed.
 
+(* a negative timeout is a deadline that has already passed *)
+Lemma deadline_negative_timeout parent now timeout :
+  (timeout < 0)%Z -> exists d, effective_deadline parent now timeout = Some d /\ (d < now)%Z.
+Proof.
+  intros H. rewrite deadline_is_min by lia. eexists. split; [reflexivity|]. destruct parent; lia.
+Qed.
+
+(* reading every non-positive timeout as no timeout is a different function: with no caller deadline a negative
+   timeout would then mean an unbounded wait *)
+Lemma deadline_nonpositive_as_none_differs :
+  exists parent now timeout,
+    effective_deadline_nonpositive_as_none parent now timeout = None /\
+    exists d, effective_deadline parent now timeout = Some d /\ (d < now)%Z.
+Proof. exists None, 0%Z, (-1)%Z. split; [reflexivity|]. exists (-1)%Z. split; [reflexivity | lia]. Qed.
+
+Lemma deadline_nonpositive_as_none_agrees parent now timeout :
+  (0 <= timeout)%Z ->
+  effective_deadline_nonpositive_as_none parent now timeout = effective_deadline parent now timeout.
+Proof.
+  intros H. unfold effective_deadline_nonpositive_as_none, effective_deadline.
+  destruct (timeout =? 0)%Z eqn:E.
+  - apply Z.eqb_eq in E. subst. reflexivity.
+  - apply Z.eqb_neq in E. destruct (timeout <=? 0)%Z eqn:E2; [apply Z.leb_le in E2; lia | reflexivity].
+Qed.
+
+(* the latest return: not before the call began, not after either bound that exists *)
+Lemma must_return_by_bounds parent now timeout m :
+  must_return_by parent now timeout = Some m ->
+  (now <= m)%Z /\ (forall p, parent = Some p -> (m <= Z.max now p)%Z) /\
+  (timeout <> 0%Z -> (m <= Z.max now (now + timeout))%Z).
+Proof.
+  unfold must_return_by. destruct (effective_deadline parent now timeout) as [d|] eqn:E; [|discriminate].
+  intros H. inversion H; subst; clear H. destruct (deadline_bounds _ _ _ _ E) as [H1 H2].
+  split; [lia|]. split.
+  - intros p Hp. specialize (H1 p Hp). lia.
+  - intros Hn. specialize (H2 Hn). lia.
+Qed.
+
 Example ex_drain : exists d',
   d_close 7 (d_reads (d_init [4; 0; 9] FEofWithData) [3; 0; 1]) = Some d' /\ u_closes (d_u d') = 1 /\ u_finished (d_u d') = true.
 Proof. eexists. vm_compute. repeat split. Qed.
 
 Example ex_release :
   released (call all_fixed (compile all_fixed 2 [mkfp false true [true; false; true]; mkfp true true [true]])
-                 (mksc false (AOk false) false (TRespond None RespRead))) = true.
+                 (mksc false (AOk false) false (TRespond None RespRead) false)) = true.
 Proof. vm_compute. reflexivity. Qed.
 
 (* ====================== a failing source surfaces when the body is consumed ====================== *)
@@ -420,27 +612,41 @@ Proof.
 Qed.
 
 (* a failing upload source is never reported as a success when the request body is consumed to its end
-   (by GetBody, or by a transport that reads everything before it answers) *)
+   (by GetBody, by the Debug dump of the request, or by a transport that reads everything before it answers) *)
+Lemma fail_late_result fx st w ro saw : c_result (fail_late fx st w ro saw) = RFail.
+Proof. unfold fail_late. destruct (fx_close_on_late_error fx); reflexivity. Qed.
+
+Lemma submit_upload_failure fx sc prog :
+  has_fail prog = true ->
+  (sc_debug sc = true \/ exists r, sc_transport sc = TRespond None r) ->
+  c_result (submit fx sc (start prog) true) = RFail.
+Proof.
+  intros Hf Hc. assert (Hend := read_to_end_sees_failure prog Hf).
+  unfold submit. cbv zeta. rewrite andb_true_r. destruct (sc_debug sc) eqn:Ed.
+  - destruct (read_to_end (start prog)) as [r0 wd]. cbn in Hend. subst r0. reflexivity.
+  - destruct Hc as [Hc|[r Hr]]; [discriminate|]. cbn [negb orb]. rewrite Hr. unfold transport_reads.
+    destruct (read_to_end (start prog)) as [r2 w2]. cbn in Hend. subst r2. reflexivity.
+Qed.
+
 Lemma upload_failure_is_error fx prog sc :
   has_fail prog = true -> sc_param_err sc = false ->
-  (match sc_auth sc with AOk true | AFail true => True | _ => exists r, sc_transport sc = TRespond None r end) ->
+  (match sc_auth sc with
+   | AOk true | AFail true => True
+   | _ => sc_debug sc = true \/ exists r, sc_transport sc = TRespond None r
+   end) ->
   c_result (call fx prog sc) = RFail.
 Proof.
   intros Hf Hp Hc. unfold call. rewrite Hp.
   assert (Hend := read_to_end_sees_failure prog Hf).
   destruct (sc_auth sc) as [|[|]|[|]]; cbn [andb negb].
-  - destruct Hc as [r Hr]. destruct (sc_late_err sc); [unfold fail_late; destruct (fx_close_on_late_error fx); reflexivity|].
-    cbn. rewrite Hr. unfold transport_reads. destruct (read_to_end (start prog)) as [r2 w2]. cbn in Hend. subst r2. reflexivity.
-  - destruct (read_to_end (start prog)) as [r1 w1]. cbn in Hend. subst r1. cbn.
-    unfold fail_late; destruct (fx_close_on_late_error fx); reflexivity.
-  - destruct Hc as [r Hr]. destruct (sc_late_err sc); [unfold fail_late; destruct (fx_close_on_late_error fx); reflexivity|].
-    cbn. rewrite Hr. unfold transport_reads. destruct (read_to_end (start prog)) as [r2 w2]. cbn in Hend. subst r2. reflexivity.
-  - destruct (read_to_end (start prog)) as [r1 w1]. cbn in Hend. subst r1. cbn.
-    unfold fail_late; destruct (fx_close_on_late_error fx); reflexivity.
-  - unfold fail_late; destruct (fx_close_on_late_error fx); reflexivity.
+  - destruct (sc_late_err sc); [apply fail_late_result | now apply submit_upload_failure].
+  - destruct (read_to_end (start prog)) as [r1 w1]. cbn in Hend. subst r1. cbn. apply fail_late_result.
+  - destruct (sc_late_err sc); [apply fail_late_result | now apply submit_upload_failure].
+  - destruct (read_to_end (start prog)) as [r1 w1]. cbn in Hend. subst r1. cbn. apply fail_late_result.
+  - apply fail_late_result.
 Qed.
 
 Example ex_upload_failure :
   let prog := compile all_fixed 1 [mkfp false true [true; false; true]] in
-  has_fail prog = true /\ c_result (call all_fixed prog (mksc false (AOk false) false (TRespond None RespRead))) = RFail.
+  has_fail prog = true /\ c_result (call all_fixed prog (mksc false (AOk false) false (TRespond None RespRead) false)) = RFail.
 Proof. vm_compute. split; reflexivity. Qed.
